@@ -102,7 +102,7 @@ def race_part(work, binp, cov, quick, seed):
                                   cases=rep.get("behaviours", 0), rounds_per_case=reps))
         log("storerace %s: %d cases x %d rounds" % (engines, rep.get("behaviours", 0), reps))
         traces += trs
-    ntr, v = validate_all(work, traces, ["M_BatchesSerializable"], module="TraceStorage.tla", chunks=8)
+    ntr, v = validate_all(work, traces, ["M_BatchesSerializable", "M_ReadsDuringBatches"], module="TraceStorage.tla", chunks=8)
     cov["traces_validated_against_impl"] += ntr
     return v
 
